@@ -71,6 +71,7 @@ type lifeWorld struct {
 	crashWG        sync.WaitGroup
 	verifyInFlight bool
 	verifyAt       time.Duration
+	lastWriteEnd   time.Duration // when the latest data write by the SUT finished
 }
 
 // api runs f (a public API call) and reports a violation if it does not return in time.
@@ -227,6 +228,11 @@ func RunLifecycle(env *Env, plan *LifePlan) {
 		crashAt[n] = true
 	}
 	fs.OnWrite = func(ev *simfs.WriteEvent) simfs.Fault {
+		if ev.Phase == "end" {
+			w.mu.Lock()
+			w.lastWriteEnd = simrt.Now()
+			w.mu.Unlock()
+		}
 		if ev.Phase == "begin" {
 			w.mu.Lock()
 			w.writes++
@@ -417,8 +423,19 @@ func (w *lifeWorld) doCmd(c Cmd, next time.Duration, lst *PeerActor) bool {
 						good++
 					}
 				}
-				if int(st.Pieces.Have) != good {
+				w.mu.Lock()
+				lateWrite := w.lastWriteEnd > w.verifyAt
+				w.mu.Unlock()
+				switch {
+				case int(st.Pieces.Have) > good:
+					simrt.Violate("C04", "effect.verify_result", "after Verify() the torrent reports %d pieces, only %d are correct on disk", st.Pieces.Have, good)
+				case int(st.Pieces.Have) != good && !lateWrite:
 					simrt.Violate("C04", "effect.verify_result", "after Verify() the torrent reports %d pieces, %d are correct on disk", st.Pieces.Have, good)
+				case int(st.Pieces.Have) != good:
+					// a piece write that was in flight when the torrent was stopped for the
+					// verification landed after its file had been checked: the result describes
+					// the disk as it was, and claims less than what is there now
+					simrt.Count("probe.life.verify_raced_by_late_write", 1)
 				}
 				w.mu.Lock()
 				w.tainted = map[int]bool{}
